@@ -82,7 +82,7 @@ def main(argv):
     deadline = t0 + float(os.environ.get('VERIF_BUDGET_S', '1e9'))
     fail = {}
 
-    result = {'property': prop, 'sub': subname, 'tier': tier, 'shard': int(shard), 'seed': seedv}
+    result = {'property': prop, 'sub': subname, 'tier': tier, 'shard': str(shard), 'seed': seedv}
     try:
         if sub.enumerate_cases is not None:
             cases = sub.enumerate_cases(tier)
